@@ -28,7 +28,7 @@ COMPONENTS = {"real": ["setigen.voltage.data_stream.DataStream", "setigen.voltag
 ASSUMPTIONS = ["numpy Generator.standard_normal is stream-consistent (n1 then n2 draws == n1+n2 draws); asserted at start-up",
                "at most one noise source per stream (two sources share one generator, so their draws legitimately interleave per request)",
                "custom sources are pure functions of the time array"]
-PROBES = ["background_stream_subclass", "chirp_parameters_given_as_quantities", "source_returns_view_of_own_array", "dyadic_bitwise", "request_len_1", "control_set_time", "control_add_time", "control_reset_start",
+PROBES = ["other_rate_stream_used_same_request_lengths_before", "background_stream_subclass", "chirp_parameters_given_as_quantities", "source_returns_view_of_own_array", "dyadic_bitwise", "request_len_1", "control_set_time", "control_add_time", "control_reset_start",
           "control_update_noise", "complex_source", "descending_band", "antenna_two_pols", "negative_drift", "source_callback_error"]
 
 
@@ -108,7 +108,10 @@ def generate(rng, tier):
            "seed": gen_seed(rng), "pols": pols, "dyadic": dyadic, "sources": srcs}
     if kind == "stream" and rng.random() < 0.3:
         cfg["subclass"] = "background"
-    return {"seams": {"entropy_salt": rng.randrange(1 << 20), "scratch": "c10"}, "cfg": cfg, "ops": ops}
+    sc = {"seams": {"entropy_salt": rng.randrange(1 << 20), "scratch": "c10"}, "cfg": cfg, "ops": ops}
+    if rng.random() < 0.2:
+        sc["predecessor"] = {"rate_factor": rng.choice([2.0, 0.5, 3.0]), "count": rng.choice([1, 2, 4])}
+    return sc
 
 
 def simplify(sc):
@@ -347,6 +350,15 @@ class RefStream:
 
 def execute(sc, ctx):
     import setigen.voltage as sv
+    if sc.get("predecessor"):
+        # another stream of another sample rate has asked for the same request lengths earlier in this process
+        pre = sc["predecessor"]
+        ps = sv.DataStream(sample_rate=sc["cfg"]["fs"] * pre["rate_factor"], fch1=sc["cfg"]["fch1"], ascending=sc["cfg"]["ascending"],
+                           t_start=0.0, seed=1)
+        ps.add_noise(0.0, 1.0)
+        for n in [op["n"] for op in sc["ops"] if op["op"] == "get"][:pre["count"]]:
+            ps.get_samples(n)
+        ctx.hit("other_rate_stream_used_same_request_lengths_before")
     cfg = with_quantities(sc["cfg"])
     if any(ch.get("_fq") is not None or ch.get("_dq") is not None for s_ in cfg["sources"] for ch in s_["chirps"]):
         ctx.hit("chirp_parameters_given_as_quantities")
